@@ -22,6 +22,7 @@ history equals the package built from its final map (correspondence, with the mo
 after every single operation).
 -/
 import Hdl21Model.Lemmas.InstOps
+import Hdl21Model.Lemmas.Dfs
 namespace Hdl21.Props.C04
 open Hdl21.InstOps
 
@@ -147,5 +148,73 @@ example :
                 .connect (1, 0) (.obj 8), .connect (1, 2) (.obj 7), .disconnect (1, 2)]
     abs (run init ops) (1, 0) = some (.obj 8) ∧ (run init ops).back (.pref (0, 1)) = [] ∧
     (run init ops).back (.obj 7) = [(0, 1)] ∧ (run init ops).prefs = [(0, 1)] := by decide
+
+end Hdl21.Props.C04
+
+/-! ## Group discovery (`portrefs.follow`) sees the final map only -/
+namespace Hdl21.Props.C04
+open Hdl21.InstOps Hdl21.Dfs
+
+/-- the ports `follow` moves to from port `p`: forward through `conns` (when connected to a port reference), backward
+    through the `_connected_ports` of `p`'s own reference -/
+def nbrs (s : State) (p : Port) : List Port :=
+  (match lookup s.conns p with | some (.pref q) => [q] | _ => []) ++ s.back (.pref p)
+
+/-- the same, read off the final map alone -/
+def Adj (m : Spec) (p q : Port) : Prop := m p = some (.pref q) ∨ m q = some (.pref p)
+
+theorem nbrs_iff_adj (ops : List Op) (p q : Port) :
+    q ∈ nbrs (run init ops) p ↔ Adj (abs (run init ops)) p q := by
+  unfold nbrs Adj
+  rw [List.mem_append, follow_edges_symmetric]
+  constructor
+  · rintro (h | h)
+    · left
+      cases hl : lookup (run init ops).conns p with
+      | none => simp [hl] at h
+      | some c =>
+        cases c with
+        | obj n => simp [hl] at h
+        | pref q' => simp only [hl, List.mem_singleton] at h; subst h; exact hl
+    · right; exact h
+  · rintro (h | h)
+    · left
+      have : lookup (run init ops).conns p = some (.pref q) := h
+      simp [this]
+    · right; exact h
+
+/-- reachability in the graph of the final map -/
+inductive Linked (m : Spec) : Port → Port → Prop
+  | refl (a : Port) : Linked m a a
+  | step {a b c : Port} : Adj m a b → Linked m b c → Linked m a c
+
+theorem reach_iff_linked (ops : List Op) (a b : Port) :
+    Reach (nbrs (run init ops)) a b ↔ Linked (abs (run init ops)) a b := by
+  constructor
+  · intro hr
+    induction hr with
+    | refl a => exact .refl a
+    | step hb _ ih => exact .step ((nbrs_iff_adj ops _ _).mp hb) ih
+  · intro hl
+    induction hl with
+    | refl a => exact .refl a
+    | step hb _ ih => exact .step ((nbrs_iff_adj ops _ _).mpr hb) ih
+
+/-- **The group `follow` discovers from a port is the set of ports linked to it in the final map** — whatever history
+    produced that map, and whatever was connected and replaced on the way. -/
+theorem follow_group_is_component (ops : List Op) (fuel : Nat) (p : Port) (g : List Port)
+    (h : dfs (nbrs (run init ops)) fuel p [] = some g) :
+    ∀ x, x ∈ g ↔ Linked (abs (run init ops)) p x := by
+  intro x
+  rw [dfs_component (nbrs (run init ops)) fuel p g h x]
+  exact reach_iff_linked ops p x
+
+/-- Two histories with the same final map discover the same groups. -/
+theorem groups_depend_on_final_map_only (ops₁ ops₂ : List Op) (heq : abs (run init ops₁) = abs (run init ops₂))
+    (fuel₁ fuel₂ : Nat) (p : Port) (g₁ g₂ : List Port)
+    (h₁ : dfs (nbrs (run init ops₁)) fuel₁ p [] = some g₁) (h₂ : dfs (nbrs (run init ops₂)) fuel₂ p [] = some g₂) :
+    ∀ x, x ∈ g₁ ↔ x ∈ g₂ := by
+  intro x
+  rw [follow_group_is_component ops₁ fuel₁ p g₁ h₁ x, follow_group_is_component ops₂ fuel₂ p g₂ h₂ x, heq]
 
 end Hdl21.Props.C04
